@@ -55,11 +55,26 @@ func vfRunVariants(vf *vfCollector, rt *rapid.T, v *Validator, scope string, var
 		return s
 	})
 	for i := range vars {
+		vfDrawPre(vf, rt, &vars[i])
 		if vfCompare(vf, rt, v, &vars[i], limit, descr) {
 			return true
 		}
 	}
 	return false
+}
+
+// vfDrawPre: for about a third of the requests an earlier filter of the pipeline has already put
+// a response into the context (Proxy, ResponseBuilder, RemoteFilter ... in front of the Validator);
+// a rejection must still answer 401/400.
+func vfDrawPre(vf *vfCollector, rt *rapid.T, x *vfVariant) {
+	if !vfOneIn(rt, 3, "earlierResponse") {
+		return
+	}
+	x.Pre = rapid.SampledFrom([]int{200, 200, 204, 302, 404, 500, 503}).Draw(rt, "earlierStatus")
+	vf.Class("earlier-response-in-context")
+	if x.want() == vfReject {
+		vf.Class("earlier-response-in-context+oracle-reject")
+	}
 }
 
 // ---------------------------------------------------------------- JWT (and oauth2 self-encoded JWT)
@@ -448,9 +463,48 @@ func TestVerifC06Basic(t *testing.T) {
 			vf.Exclude()
 		}
 		users := vfGenUsers(rt, colonOneIn)
-		v, y, cleanup := vfBasicSetup(rt, users, nil)
-		defer cleanup()
-		descr := func() string { return "spec:\n" + y + "users=" + vfUsersString(users) }
+		// the configured users live in an htpasswd file (mode FILE) or in the cluster's custom data
+		// (mode ETCD: entries with key and/or username; the user name is `username`, `key` only when
+		// there is no username)
+		var v *Validator
+		var y, store string
+		etcdKeyOf := map[string]string{} // user name -> storage key of a key+username entry
+		if vfOneIn(rt, 3, "modeETCD") {
+			prefix := rapid.SampledFrom([]string{"credentials/", "tenants/a/", "c/"}).Draw(rt, "etcdPrefix")
+			var entries []vfEtcdEntry
+			for i, u := range users {
+				e := vfEtcdEntry{User: u}
+				switch rapid.SampledFrom([]string{"key+username", "key+username", "key-only", "username-only"}).Draw(rt, "entryKind") {
+				case "key+username":
+					e.Key = fmt.Sprintf("cred-%04d", i+1)
+					e.Username, e.StoreKey = u.Name, e.Key
+					etcdKeyOf[u.Name] = e.Key
+				case "key-only":
+					e.Key, e.StoreKey = u.Name, fmt.Sprintf("k%d", i)
+				default:
+					e.Username, e.StoreKey = u.Name, fmt.Sprintf("entry-%d", i)
+				}
+				vf.Class("basic:etcd-entry-" + e.kind())
+				entries = append(entries, e)
+			}
+			super, dump, err := vfEtcdSupervisor(prefix, entries, rapid.SliceOfN(rapid.Byte(), 0, 8).Draw(rt, "salt"))
+			if err != nil {
+				rt.Fatalf("VF-INCONCLUSIVE cannot build etcd entries: %v", err)
+			}
+			v, y, err = vfC06NewValidatorSuper(map[string]interface{}{"basicAuth": map[string]interface{}{"mode": "ETCD", "etcdPrefix": prefix}}, super)
+			if err != nil {
+				rt.Fatalf("VF-INCONCLUSIVE generated spec rejected: %v\n%s", err, y)
+			}
+			defer v.Close()
+			store = "etcd:\n" + dump
+			vf.Class("basic:mode-ETCD")
+		} else {
+			var cleanup func()
+			v, y, cleanup = vfBasicSetup(rt, users, nil)
+			defer cleanup()
+			vf.Class("basic:mode-FILE")
+		}
+		descr := func() string { return "spec:\n" + y + store + "users=" + vfUsersString(users) }
 
 		// several rounds per validator: creating/closing one costs ~10 ms (fsnotify)
 		rounds := rapid.IntRange(1, 3).Draw(rt, "rounds")
@@ -480,6 +534,12 @@ func TestVerifC06Basic(t *testing.T) {
 				rt.Fatalf("VF-INCONCLUSIVE harness: own oracle rejects the configured credentials")
 			}
 			vars := append([]vfVariant{b}, vfBasicMutations(rt, users, base, u, rapid.IntRange(2, 6).Draw(rt, "nmut"), allowColonMut)...)
+			if k, ok := etcdKeyOf[u.Name]; ok {
+				// the storage key of a key+username entry is not a user name
+				m := base.clone()
+				m.set("Authorization", vfBasicHeader(k, u.Pass))
+				vars = append(vars, vfVariant{Label: vfBasicLabel("etcd-key-as-user", u.Pass, true), Req: m, Hdr: vfAccept, Cred: vfBasicVerdict(&m, users)})
+			}
 			for i := 1; i < len(vars); i++ {
 				vars[i].Covered = b.Cred == vfAccept && vars[i].Cred == vfReject
 			}
@@ -1387,6 +1447,7 @@ func TestVerifC06Malformed(t *testing.T) {
 			vf.Case(false, y+"||"+x.Req.String(), func() interface{} {
 				return map[string]interface{}{"check": "malformed", "config": y, "request": x.Req.String(), "oracle": x.want().String()}
 			})
+			vfDrawPre(vf, rt, x)
 			if vfCompare(vf, rt, v, x, 0, descr) {
 				return
 			}
@@ -1708,6 +1769,7 @@ func TestVerifC06Inherit(t *testing.T) {
 			for i := range vars {
 				x := &vars[i]
 				vf.Class(x.Label, "inherit:oracle-"+x.want().String())
+				vfDrawPre(vf, rt, x)
 				if vfCompare(vf, rt, live[0], x, 0, descr) {
 					return true
 				}
